@@ -118,6 +118,10 @@ fn main() {
         }
         "livesync" => {
             let w = std::sync::Arc::new(World::new(seed, 3, 3));
+            if args.num("probe", 0) == 1 {
+                livesync::probe(w);
+                return;
+            }
             let scheds = args.kv.get("schedules").map(|p| read_schedules(p)).unwrap_or_default();
             livesync::run(w, seed, scheds, &mut trace, &mut sum);
         }
